@@ -7,6 +7,8 @@ Import ListNotations.
 Require Import Rapid.Generated.Consts.
 Require Import Rapid.Model.Persist.
 Require Import Rapid.Proofs.PersistLoadProofs.
+Require Rapid.Model.Base Rapid.Model.Monad Rapid.Model.Shrink Rapid.Proofs.FileProofs.
+Require Import Rapid.Proofs.FileEngine.
 Open Scope N_scope.
 
 (* loadFailFile's parsing is a total function of the file content: every byte string gives a result or
@@ -57,3 +59,28 @@ Example C17_instances :
   load_bytes [118; 35; 49; 10; 45; 49] = LErr ErrWord /\
   load_bytes [118; 35; 49; 10; 48; 120; 49; 95; 48; 13; 10; 48; 49; 55; 10] = LOk [118] 1 [16; 15].
 Proof. vm_compute. repeat split; reflexivity. Qed.
+
+(* ---- the engine part (Proofs/FileEngine.v): for EVERY directory content none of whose files reproduces a
+   failure - bytes the loader rejects, files of another rapid version, stale test cases that now pass or are
+   rejected as invalid data - checkTB behaves exactly as with an empty directory: same verdict, same failed
+   flag, same advertised seed, same buffer handed to saveFailFile, same final replay, same counts; one log
+   entry per file and none of them a failure.  No hypothesis on the property function. *)
+Theorem C17_unusable_files_change_nothing :
+  forall geom LF lvl p (dir : list bytes) checks nofailfile early seed cands clock,
+    Forall (fun b => FileProofs.unusable geom LF lvl p (classify b)) dir ->
+    let a := Shrink.checkTB geom LF lvl p (map classify dir) checks nofailfile early seed cands clock in
+    let b := Shrink.checkTB geom LF lvl p [] checks nofailfile early seed cands clock in
+    Shrink.tb_verdict a = Shrink.tb_verdict b /\ Shrink.tb_failed a = Shrink.tb_failed b /\
+    Shrink.tb_seed_shown a = Shrink.tb_seed_shown b /\ Shrink.tb_saved a = Shrink.tb_saved b /\
+    Shrink.tb_final a = Shrink.tb_final b /\
+    Shrink.dc_valid (Shrink.tb_dc a) = Shrink.dc_valid (Shrink.tb_dc b) /\
+    Shrink.dc_invalid (Shrink.tb_dc a) = Shrink.dc_invalid (Shrink.tb_dc b) /\
+    length (Shrink.dc_filelogs (Shrink.tb_dc a)) = length dir /\ ~ In Shrink.FFailed (Shrink.dc_filelogs (Shrink.tb_dc a)).
+Proof. exact dir_of_unusable_files_changes_nothing. Qed.
+Print Assumptions C17_unusable_files_change_nothing.
+
+(* every byte string the loader rejects is such a file *)
+Theorem C17_rejected_bytes_are_unusable :
+  forall geom LF lvl p b e, load_bytes b = LErr e -> FileProofs.unusable geom LF lvl p (classify b).
+Proof. exact rejected_bytes_unusable. Qed.
+Print Assumptions C17_rejected_bytes_are_unusable.
